@@ -59,6 +59,17 @@ fn step() -> (VerifCcParts, VerifCcParts, u64, u64) {
     (p, s.verif_parts(), obs, now)
 }
 
+// the representation invariant `wf` (which the step harnesses above and the Verus unit `cc` -- eff_wf -- take as their precondition) holds
+// for a freshly created controller; every operation preserves it (cc_tick_range_and_wf here, `final(self).eff_wf()` / the frames in unit cc)
+#[kani::proof]
+fn cc_default_state_is_well_formed() {
+    let s = LinkCongestionState::default();
+    let p = s.verif_parts();
+    assert!(wf(&p));
+    assert!(p.state == CcState::Bootstrap && p.target_bps == FLOOR && !p.loss_degraded && !p.loss_uncongestive && p.backoff_ticks == 0 && p.uncongestive_ticks == 0);
+    assert!(s.verif_loss_samples_len() == 0 && p.window_sent == 0 && p.window_lost == 0);
+}
+
 fn has_rtt(p: &VerifCcParts) -> bool { p.rtt_ewma_ms.is_finite() && p.rtt_ewma_ms != 0.0 }
 
 #[kani::proof]
